@@ -316,6 +316,11 @@ struct Plan {
 }
 
 fn run_plan(ctx: &Ctx, prop: Prop, plan: &Plan, deadline: f64, agg: &mut Agg) {
+    if agg.counts.values().sum::<u64>() >= 200 {
+        // (see below) earlier plans have settled the verdict
+        agg.stats.capped = true;
+        return;
+    }
     // work items: (work index, end, attach)
     let mut items: Vec<(usize, u32, u32)> = vec![];
     for (wi, w) in plan.works.iter().enumerate() {
@@ -336,6 +341,12 @@ fn run_plan(ctx: &Ctx, prop: Prop, plan: &Plan, deadline: f64, agg: &mut Agg) {
         items.len(),
         |c| (Agg::new(), { let d = base.join(format!("p{c}")); let _ = std::fs::create_dir_all(&d); d }),
         |acc: &mut (Agg, std::path::PathBuf), i| {
+        // the verdict is settled once violations have been seen; a tree on which most calls spin to the retry
+        // budget would otherwise cost ten minutes and more. Never triggers on a tree where the property holds.
+        if acc.0.counts.values().sum::<u64>() >= 25 {
+            acc.0.stats.capped = true;
+            return;
+        }
         let (wi, end, attach) = items[i];
         let w = &plan.works[wi];
         let dir = acc.1.clone();
@@ -382,7 +393,8 @@ fn run_plan(ctx: &Ctx, prop: Prop, plan: &Plan, deadline: f64, agg: &mut Agg) {
                 if first_tr.is_none() || (tr.stats.data_reads > 1 && first_tr.as_ref().map(|f| f.stats.data_reads <= 1).unwrap_or(false)) {
                     first_tr = Some(tr.clone());
                 }
-                true
+                // (as above) enough violating calls from this attach point: leave it
+                local.counts.values().sum::<u64>() < 6
             },
         );
         match r {
@@ -752,10 +764,15 @@ fn run_reader_prop(ctx: &Ctx, prop: Prop, lit: (usize, u64)) -> i32 {
         }
     }
     let mut plan_info = vec![];
+    let t_phase = raw_now_s();
+    let mut phase_times: Vec<(String, f64)> = vec![];
     for p in &plans {
         plan_info.push((p.label.to_string(), p.works.len()));
+        let t = raw_now_s();
         run_plan(ctx, prop, p, deadline, &mut agg);
+        phase_times.push((p.label.to_string(), raw_now_s() - t));
     }
+    let _ = t_phase;
     let mut extra: Vec<(&str, Value)> = vec![];
     if let Some((ev, _)) = single_producer {
         extra.push(("single_producer_check_on_the_real_daemon", ev));
@@ -801,6 +818,7 @@ fn run_reader_prop(ctx: &Ctx, prop: Prop, lit: (usize, u64)) -> i32 {
         coverage.insert(k.into(), v);
     }
     coverage.insert("budget_s".into(), json!(budget));
+    coverage.insert("wall_s_per_plan".into(), json!(phase_times.iter().map(|(l, t)| json!({"plan": l, "wall_s": (t * 10.0).round() / 10.0})).collect::<Vec<_>>()));
     coverage.insert("loom_cross_check_of_the_simulator".into(), loom_report(ctx));
     let mut violations: Vec<Violation> = vec![];
     for (_, (_, v)) in agg.best.iter() {
